@@ -43,6 +43,7 @@ type HarnessInfo struct {
 	POLoop   int
 	ReplayInterp bool
 	NoBlock  bool
+	Twin     bool // vacuity twin: the harness is built to violate; a run in which it does not is broken
 	BlockOK  bool
 }
 
@@ -215,6 +216,8 @@ func Load(groups []string) (*Loaded, error) {
 					h.BlockOK = true
 				case "noblock":
 					h.NoBlock = true
+				case "twin":
+					h.Twin = true
 				case "replay":
 					h.ReplayInterp = strings.TrimSpace(m[2]) == "interp"
 				case "poloop":
